@@ -584,7 +584,10 @@ func (c *Compiler) applyUsesToNode(mod, nod, use parse.Node, parentStatus schema
 			continue
 		}
 		newKid := kid.Clone(kidmod)
-		inheritCommonProperties(use, newKid, false)
+		// RFC 6020 7.19.5: the context node of a 'when' that is a child
+		// of a uses is the closest ancestor data node of the uses, ie the
+		// parent of the nodes the uses introduces - as for an augment.
+		inheritCommonProperties(use, newKid, true)
 
 		// Deal with 'double' forward reference of grouping where first
 		// forward referenced grouping contains a second forward reference
